@@ -189,6 +189,14 @@ def any_projection(rng):
     return K.utm if r < 0.45 else K.isg if r < 0.6 else random_projection(rng)
 
 
+def in_own_zone(prj, zone, lon):
+    """lon lies in the zone's own half-open interval [CM - zw/2, CM + zw/2): the automatic choice (zone=0) is
+    only asked for there, so that the upper edge of the last zone (outside the 60-zone coverage of a narrow-zone
+    projection, outside the ten ISG zones) is never requested"""
+    d = lon - central_meridian(prj, zone)
+    return -float(prj.zonewidth) / 2 <= d < float(prj.zonewidth) / 2
+
+
 def zones_within(prj, lon, limit=30.0):
     """explicit zones (1..60, or the ten ISG zones) whose CM is within `limit` degrees of lon"""
     zs = ISG_ZONES if prj is K.isg else range(1, 61)
